@@ -21,7 +21,6 @@ package main
 import (
 	"fmt"
 	"os"
-	"runtime/pprof"
 	"sort"
 	"strings"
 	"time"
@@ -50,11 +49,6 @@ func main() {
 	r.Assume("history subsumption: a successor is not expanded when a known state has the same table and a stored-location history that is a SUBSET of the successor's: the oracle uses the history only positively ('was stored for k'), the implementation behaves identically, and subset is preserved by every operation, so every violation reachable from the dropped state is reachable (same operations) from the kept one. Violations themselves are always judged with the exact history of the actual path.")
 	r.Assume("volatile block list variant: epoch hash seeds come from the repository's CryptoThreadSafeGenerator; they are never observable except through a 2^-64 checksum collision, so the run is deterministic in everything that is compared")
 
-	if f := os.Getenv("C06_PROFILE"); f != "" {
-		pf, _ := os.Create(f)
-		pprof.StartCPUProfile(pf)
-		defer pprof.StopCPUProfile()
-	}
 	initCollectors()
 
 	if r.Replay != "" {
@@ -278,7 +272,6 @@ func main() {
 		}
 		r.Sample(globalSamples[oc])
 	}
-	pprof.StopCPUProfile()
 	r.Finish()
 }
 
